@@ -65,8 +65,22 @@ def tus(tier, seed):
             n = consts[(k + seed) % len(consts)]
             k += 1
             body += '  divc<%s, %s, %dLL, %s>(rng);\n' % (TAGS[tag], CT[t], n, 'std::int32_t' if abs(n) < 2**31 else 'std::int64_t')
+            # constants of other value types (unsigned 8/16-bit ones included)
+            cts = [c for c in ['std::uint8_t', 'std::uint16_t', 'std::int8_t', 'std::int16_t', 'std::int32_t']
+                   if (n >= 0 or 'uint' not in c) and abs(n) < (1 << (int(''.join(ch for ch in c if ch.isdigit())) - 1))]
+            if cts:
+                body += '  divc<%s, %s, %dLL, std::int32_t, %s>(rng);\n' % (TAGS[tag], CT[t], n, cts[(k + seed) % len(cts)])
     body += '}\n'
     res.append(dict(name='C08_const', src=body, compiler='g++'))
+    # numbers made by make_static_integer<RoundingTag>(constant / run-time value) divided by built-in integers
+    rnd2 = random.Random(seed * 97 + 8)
+    vs = [-7, 7, 1, -1, -100, 12345, 5000000000, -(1 << 40), 2147483647, -2147483647, 9, -9, 15, -15] + [rnd2.randint(-10**6, 10**6) or 3 for _ in range(4)]
+    body = '#include "%s"\nint main(){ install(); Rng rng(seed_from_env()+5000);\n' % (__file__.replace('.py', '.h'))
+    for tag in TAGS:
+        for v in vs:
+            body += '  msi<%s, %dLL>(rng);\n' % (TAGS[tag], v)
+    body += '}\n'
+    res.append(dict(name='C08_msi', src=body, compiler='g++'))
     return res
 
 
